@@ -1,5 +1,6 @@
 SPECIFICATION SimSpec
 CONSTANTS
+    Focus = "general"
     Cfgs <- QuickCfgs
     Ctors <- SimCtors
     Layouts <- SimLayouts
